@@ -83,7 +83,7 @@ def size_prefix_detached(s):
     from TexSoup.utils import TC
     try:
         prev = None
-        for t in tokenize(categorize(s)):
+        for t in common.impl_token_list(s):
             if t.category == TC.CommandName and prev is not None and prev.category == TC.Escape \
                     and t.text in SIZE_PREFIX:
                 return True
